@@ -519,6 +519,11 @@ class _Run:
         raise HarnessError("unknown op %r" % kind)
 
     def run(self):
+        import random
+        import numpy as np
+        tag = "history" if self.only is None else ("solo", self.only)
+        random.seed(H("global-random", self.sc["run_seed"], tag))
+        np.random.seed(H("global-numpy", self.sc["run_seed"], tag) % 2 ** 32)
         self.setup()
         seq = 0
         for cid in self.sc["schedule"]:
